@@ -307,8 +307,11 @@ def history_lookup_rule(P, C, rule):
     """Every evaluation of a history vector at a date has one shape in this code base (6 sibling sites):
     `entries.iter().rev().find(|e| e.<date field> <= date)` followed by a read of the found entry's flag.
     A site that deviates (another combinator, another comparison, a flag tested inside the search) computes a
-    different function of the history than its siblings: 'the latest entry at or before the date decides'."""
+    different function of the history than its siblings: 'the latest entry at or before the date decides'.
+    The shape is looked for in the function and its closures (`get(..).and_then(|h| h.iter().rev().find(..)).map_or(false, |e| e.enabled)`
+    is the same lookup)."""
     n = 0
+    STRAY = r"Iterator::(any|all|filter|filter_map|position|rposition|last|max_by_key|min_by_key|max_by|min_by|fold|find_map|take_while|skip_while|nth|reduce)$"
     for fn in LOOKUP_FNS:
         b = P.body(fn, required=False)
         if b is None:
@@ -316,60 +319,70 @@ def history_lookup_rule(P, C, rule):
             continue
         C.saw(b)
         short = mir.short(b.id)
-        for gi, gt in b.calls_to(r"HashMap::get$"):
-            fld = field_path(b.call_args(gi)[0]).split(".")[-1]
-            if fld not in HISTORY_FIELDS:
-                continue
-            n += 1
-            key = "%s:%s" % (short, fld)
-            # consumers of the looked-up vector
-            uses = []
-            for bi, t in b.live_calls():
-                if bi == gi:
-                    continue
-                a = b.call_args(bi, expand_vars=True)
-                if a and any(s[0] == "call" and s[3] == gi for s in mir.subterms(a[0])):
-                    uses.append((bi, callee_name(t), a))
-            names = [u[1].split("::")[-1] for u in uses]
-            finds = [u for u in uses if u[1].endswith("Iterator::find") or u[1].endswith("::find")]
-            allowed = {"deref", "iter", "rev", "find"}
-            stray = [x for x in names if x not in allowed]
-            ok = len(finds) == 1 and not stray
-            det = "combinators applied to self.%s.get(..): %s" % (fld, names)
-            if ok:
-                f = finds[0]
-                recv = f[2][0]
-                ok = mir.has_call(recv, r"Iterator::rev$|::rev$") is not None and mir.has_call(recv, r"slice::.*iter$|::iter$") is not None
-                clos = f[2][1]
+        fam = [P.bodies[x] for x in P.family(b.id) if x in P.bodies]
+        flds = []
+        for fb in fam:
+            for gi, gt in fb.calls_to(r"HashMap::get$"):
+                fld = field_path(fb.call_args(gi)[0]).split(".")[-1]
+                if fld in HISTORY_FIELDS and fld not in flds:
+                    flds.append((fld, fb, gi))
+        finds = []
+        stray = []
+        for fb in fam:
+            for bi, t in fb.live_calls():
+                nm = callee_name(t)
+                if re.search(r"::(find|rfind)$", nm):
+                    finds.append((fb, bi, fb.call_args(bi, expand_vars=True)))
+                elif re.search(STRAY, nm):
+                    stray.append(nm.split("::")[-1])
+        date_fields = {HISTORY_FIELDS[f_] for f_, _, _ in flds}
+        shape_ok = len(finds) == len(flds) and not stray and len(date_fields) == 1
+        det = "%d history field(s) %s, %d search(es), other combinators: %s" % (len(flds), [f_ for f_, _, _ in flds], len(finds), stray or "none")
+        pred_bodies = set()
+        if shape_ok:
+            dfield = list(date_fields)[0]
+            for fb, fbi, fargs in finds:
+                recv = fargs[0]
+                okf = mir.has_call(recv, r"Iterator::rev$|::rev$") is not None and mir.has_call(recv, r"slice::.*iter$|::iter$") is not None
+                clos = strip_refs(fargs[1])
                 cb = P.bodies.get(clos[2]) if clos[0] == "aggr" and clos[1] == "closure" else None
                 cmp_ok = False
                 if cb is not None and len(cb.live_blocks()) == 1:
+                    pred_bodies.add(cb.id)
                     sts = [st for st in cb.blocks[0]["s"] if st["lhs"] == [0]]
                     if len(sts) == 1 and sts[0]["rv"]["r"] == "bin" and sts[0]["rv"]["op"] == "Le":
                         l = cb.operand_term(sts[0]["rv"]["a"])
                         r = cb.operand_term(sts[0]["rv"]["b"])
                         # `entry.<date field> <= <the date argument of the lookup function, captured>`
                         ru = mir.strip(r)
-                        cmp_ok = (field_path(l).split(".")[-1] == HISTORY_FIELDS[fld] and mir.strip(l)[0] == "field"
+                        cmp_ok = (field_path(l).split(".")[-1] == dfield and mir.strip(l)[0] == "field"
                                   and ru[0] == "upvar" and cb.upvar_type(ru[1]) == "i64" and ru[1] in b.find_locals(ty=r"^i64$", param=True))
-                ok = ok and cmp_ok
-                det += "; reversed iteration with `entry.%s <= date` as the only test: %s" % (HISTORY_FIELDS[fld], cmp_ok)
-                # the decision is the found entry's flag
-                if fld != "rights":
-                    flag = False
-                    for bi2 in b.live_blocks():
-                        for si2, st2 in enumerate(b.blocks[bi2]["s"]):
-                            t2 = b.def_term(bi2, si2, st2["rv"], 0, expand_vars=True)
-                            if t2[0] == "field" and t2[2] == "enabled" and any(s[0] == "call" and s[3] == f[0] for s in mir.subterms(t2)):
+                shape_ok = shape_ok and okf and cmp_ok
+            det += "; reversed iteration with `entry.%s <= date` as the only test of every search: %s" % (dfield, shape_ok)
+            # the decision is the found entry's flag: `enabled` is read in the function or one of its closures, outside the search predicates
+            if any(f_ != "rights" for f_, _, _ in flds):
+                flag = False
+                for xb in fam:
+                    if xb.id in pred_bodies:
+                        continue
+                    for bi2 in xb.live_blocks():
+                        for si2, st2 in enumerate(xb.blocks[bi2]["s"]):
+                            rv2 = st2["rv"]
+                            pl = None
+                            if rv2["r"] == "use":
+                                pl = rv2["o"].get("c") or rv2["o"].get("m")
+                            if pl and pl[-1:] == [".enabled"]:
                                 flag = True
-                        tt = b.blocks[bi2]["t"]
+                        tt = xb.blocks[bi2]["t"]
                         if tt["k"] == "switch":
-                            t2 = b.switch_term(bi2, expand_vars=True)
-                            if t2[0] == "field" and t2[2] == "enabled" and any(s[0] == "call" and s[3] == f[0] for s in mir.subterms(t2)):
+                            pl = tt["d"].get("c") or tt["d"].get("m")
+                            if pl and pl[-1:] == [".enabled"]:
                                 flag = True
-                    ok = ok and flag
-                    det += "; verdict = found entry's `enabled`: %s" % flag
-            C.ob(rule, "history-lookup:" + key, ok, b.loc(gi), det)
+                shape_ok = shape_ok and flag
+                det += "; verdict = found entry's `enabled`: %s" % flag
+        for fld, gb, gi in flds:
+            n += 1
+            C.ob(rule, "history-lookup:%s:%s" % (short, fld), shape_ok, gb.loc(gi), det)
     C.floor(rule, "history lookups", n, 6)
     # Authorisation::can reads the flags of the entry returned by get_right_at (entity first, then wildcard)
     b = P.body("database::room::Authorisation::can", required=False)
@@ -389,13 +402,21 @@ def history_lookup_rule(P, C, rule):
     b = P.body("database::room::Room::can", required=False)
     if b is not None:
         C.saw(b)
-        ia = b.calls_to(r"Room::is_admin$")
-        iv = b.calls_to(r"Authorisation::is_user_valid_at$")
-        ac = b.calls_to(r"Authorisation::can$")
+        fam = [P.bodies[x] for x in P.family(b.id) if x in P.bodies]
+        ia, iv, ac = [], [], []
         same_date = True
         dates = b.find_locals(ty=r"^i64$", param=True)
-        for bi, t in ia + iv + ac:
-            a = b.call_args(bi)
-            same_date = same_date and len(dates) == 1 and any(field_path(x) == dates[0] for x in a)
+        for fb in fam:
+            for lst, rx in ((ia, r"Room::is_admin$"), (iv, r"Authorisation::is_user_valid_at$"), (ac, r"Authorisation::can$")):
+                for bi, t in fb.calls_to(rx):
+                    lst.append((fb, bi))
+                    a = fb.call_args(bi, expand_vars=True)
+                    # the date argument is the function's date parameter (directly, or captured by a closure)
+                    hit = False
+                    for x in a:
+                        u = mir.strip(x)
+                        if (u[0] in ("param", "var") and field_path(x) in dates) or (u[0] == "upvar" and u[1] in dates):
+                            hit = True
+                    same_date = same_date and len(dates) == 1 and hit
         C.ob(rule, "room-can:membership-and-right-at-the-same-date", len(ia) == 1 and len(iv) == 1 and len(ac) == 1 and same_date, b.loc(),
              "Room::can = (is_admin(user,date) or group.is_user_valid_at(user,date)) and group.can(entity,date,right)")
